@@ -158,3 +158,74 @@ Fixpoint run (s : st) (ops : list op) : st * list (list obs) :=
   end.
 
 Definition run_from (capacity : N) (ops : list op) : list (list obs) := snd (run (init capacity) ops).
+
+(* ---------- the native-tls acceptor (accept/native_tls.rs) as a script transformation ----------
+   Its accept future is an async block, not an AcceptFut struct:
+     * `timeout(dur, acceptor.accept(io))` is created when the block is first polled, so the deadline is
+       first-poll time + handshake_timeout, not call time + handshake_timeout;
+     * the CounterGuard is a local of the block: it is released when the block finishes, i.e. inside the poll that returns
+       Ready, and dropping the finished future later changes nothing.
+   Both are expressed exactly by rewriting the operations on native futures: [Call] gets the time until the first poll of that
+   future added to its timeout (a future that is never polled never times out), and a [PollFut] that returns Ready is followed
+   at once by [DropFut] (a later DropFut of that id finds nothing).  [is_native id] says which futures are native-tls ones. *)
+Section Native.
+  Variable is_native : nat -> bool.
+
+  (* time that passes until the first poll of future id in the rest of the script; None: never polled *)
+  Fixpoint delay_to_first_poll (id : nat) (ops : list op) : option N :=
+    match ops with
+    | [] => None
+    | PollFut i _ :: t => if Nat.eqb i id then Some 0 else delay_to_first_poll id t
+    | Advance d :: t => match delay_to_first_poll id t with Some x => Some (d + x) | None => None end
+    | _ :: t => delay_to_first_poll id t
+    end.
+
+  Definition never : N := 1000000000.
+
+  Definition shift_call (o : op) (rest : list op) : op :=
+    match o with
+    | Call id sc tmo =>
+        if is_native id then Call id sc (tmo + match delay_to_first_poll id rest with Some d => d | None => never end)
+        else o
+    | _ => o
+    end.
+
+  Fixpoint shift_calls (ops : list op) : list op :=
+    match ops with
+    | [] => []
+    | o :: t => shift_call o t :: shift_calls t
+    end.
+
+  Definition ready_poll (ob : list obs) : bool :=
+    existsb (fun x => match x with ObsPoll _ (Ready _) => true | _ => false end) ob.
+
+  (* the operations actually executed for one (shifted) operation, given the state it is executed in *)
+  Definition native_expand (s : st) (o : op) : list op :=
+    match o with
+    | PollFut id _ => if is_native id && ready_poll (snd (step s o)) then [o; DropFut id] else [o]
+    | _ => [o]
+    end.
+
+  Fixpoint run_ops (s : st) (ops : list op) : st * list obs :=
+    match ops with
+    | [] => (s, [])
+    | o :: t => let '(s1, ob) := step s o in let '(s2, ob2) := run_ops s1 t in (s2, ob ++ ob2)
+    end.
+
+  (* one script operation: state afterwards and everything observed during it *)
+  Definition native_step (s : st) (o : op) : st * list obs := run_ops s (native_expand s o).
+
+  Fixpoint native_run (s : st) (ops : list op) : st * list (list obs) :=
+    match ops with
+    | [] => (s, [])
+    | o :: t => let '(s1, ob) := native_step s o in
+                let '(s2, obs) := native_run s1 t in (s2, ob :: obs)
+    end.
+
+  (* the ordinary script whose run is the native run *)
+  Fixpoint native_script (s : st) (ops : list op) : list op :=
+    match ops with
+    | [] => []
+    | o :: t => native_expand s o ++ native_script (fst (native_step s o)) t
+    end.
+End Native.
